@@ -115,7 +115,7 @@ def angles(triangles):
     ------------
     angles : (n, 3) float
       Angles at vertex positions in radians
-      Degenerate angles will be returned as zero
+      Triangles with coincident corners return all zeros
     """
     # don't copy triangles
     triangles = np.asanyarray(triangles, dtype=np.float64)
@@ -131,11 +131,14 @@ def angles(triangles):
     result[:, 0] = np.arccos(np.clip(diagonal_dot(u, v), -1, 1))
     result[:, 1] = np.arccos(np.clip(diagonal_dot(-u, w), -1, 1))
     # the third angle is just the remaining
-    result[:, 2] = np.pi - result[:, 0] - result[:, 1]
+    result[:, 2] = np.clip(np.pi - result[:, 0] - result[:, 1], 0.0, np.pi)
 
-    # a triangle with any zero angles is degenerate
-    # so set all of the angles to zero in that case
-    result[(result < tol.merge).any(axis=1), :] = 0.0
+    # angles are only undefined where two corners coincide: that edge
+    # has no direction and `unitize` leaves it shorter than a unit vector
+    # so set all of the angles to zero in that case, but keep them for
+    # needles and collinear corners which have the angles `(0, 0, pi)`
+    coincident = np.min([diagonal_dot(i, i) for i in (u, v, w)], axis=0) < 0.5
+    result[coincident, :] = 0.0
 
     return result
 
